@@ -1,3 +1,4 @@
 -- root of the library: imports every property file (so `lake build FhVerif` checks all theorems)
 import FhVerif.Props.C32
 import FhVerif.Props.C30
+import FhVerif.Props.C26
